@@ -992,12 +992,36 @@ impl std::fmt::Display for UserHeader {
             result.push_str(&format!("{{119:{validation_flag}}}"));
         }
 
+        if let Some(ref checkpoint) = self.balance_checkpoint {
+            result.push_str(&format!(
+                "{{423:{}{}{}}}",
+                checkpoint.date,
+                checkpoint.time,
+                checkpoint.hundredths_of_second.as_deref().unwrap_or("")
+            ));
+        }
+
+        if let Some(ref mir) = self.message_input_reference {
+            result.push_str(&format!(
+                "{{106:{}{}{}{}{}}}",
+                mir.date, mir.lt_identifier, mir.branch_code, mir.session_number, mir.sequence_number
+            ));
+        }
+
+        if let Some(ref related_reference) = self.related_reference {
+            result.push_str(&format!("{{424:{related_reference}}}"));
+        }
+
         if let Some(ref unique_end_to_end_ref) = self.unique_end_to_end_reference {
             result.push_str(&format!("{{121:{unique_end_to_end_ref}}}"));
         }
 
         if let Some(ref service_type_identifier) = self.service_type_identifier {
             result.push_str(&format!("{{111:{service_type_identifier}}}"));
+        }
+
+        if let Some(ref addressee_information) = self.addressee_information {
+            result.push_str(&format!("{{115:{addressee_information}}}"));
         }
 
         if let Some(ref payment_controls) = self.payment_controls_info {
